@@ -13,7 +13,9 @@ RULE = ('Hypothesis-generated object bodies (recursive JSON, nulls, empty contai
         'other-operator / kubectl annotations) x storage configurations x handler ids/records x field paths; each case '
         'applies framework writes (P1), status/system-metadata edits (P2), essential edits (P3) and diff round-trips incl. '
         'field reduction (P4) through kopf\'s own storages/diffs and compares with independent merge/apply functions; '
-        'plus closed-loop two-operator ping-pong scenarios (P5). Non-trivial: body nesting depth >= 2 with >=1 kopf-owned '
+        'plus closed-loop two-operator ping-pong scenarios (P5) and closed-loop histories (restarts, re-listings, deletions) in which every '
+        'change handler - whole-object or narrowed to a field - gets its old/new/diff kwargs compared with the independently read '
+        'last-handled state and essence of the very body it was given (P6). Non-trivial: body nesting depth >= 2 with >=1 kopf-owned '
         'key present and >=1 of {null value, empty container, another operator\'s prefix}; distinct by canonical JSON')
 ASSUMPTIONS = [
     'patches are applied with an independent RFC 7386 implementation, as the API server would',
@@ -138,8 +140,11 @@ def cl_scenarios(draw):
 
 @st.composite
 def scenarios(draw):
-    if draw(st.integers(0, 9)) == 0:
+    pick = draw(st.integers(0, 9))
+    if pick == 0:
         return draw(cl_scenarios())
+    if pick == 1:
+        return draw(kw_scenarios())
     return {'body': draw(bodies()), 'cfg': draw(storage_cfg()), 'other': draw(storage_cfg()),
             'hid': draw(HANDLER_IDS), 'record': draw(RECORDS), 'fields': draw(st.lists(FIELDS, max_size=2)),
             'edit': draw(edits()), 'old': draw(st.one_of(st.none(), DICTS)), 'new': draw(st.one_of(st.none(), DICTS)),
@@ -345,9 +350,122 @@ def run_cl_case(sc):
     return res
 
 
+# ------------------------------------------------------------------------------------------ P6: the kwargs in the closed loop
+KW_FIELDS = [None, None, 'spec', 'spec.f', 'spec.g', 'spec.n.k', 'metadata.labels', 'metadata.labels.on', 'metadata.annotations']
+
+
+@st.composite
+def kw_scenarios(draw):
+    """Handlers of every change kind, whole-object or narrowed to a field, over histories with restarts and deletions: the
+    old/new/diff they are given are compared with the independently read last-handled state and current essence."""
+    from props import closedloop as cl
+    handlers = []
+    kinds = draw(st.lists(st.sampled_from(['create', 'update', 'delete', 'resume', 'resume', 'delete', 'update']), min_size=2, max_size=5))
+    for i, kind in enumerate(kinds):
+        h = {'kind': kind, 'id': f'{kind[0]}{i}', 'script': [], 'duration': 0}
+        f = draw(st.sampled_from(KW_FIELDS))
+        if f:
+            h['field'] = f
+        if kind == 'resume' and draw(st.booleans()):
+            h['deleted'] = True
+        handlers.append(h)
+    progress, diffbase = draw(cl.storage_cfgs())
+    dts = st.sampled_from([0.0, 0.5, 2.0, 10.0])
+    objs = st.integers(0, 1)
+    vals = st.one_of(st.none(), st.integers(0, 3), st.sampled_from([{}, {'k': 1}, {'k': 2, 'z': None}, [1], 'x']))
+    act = st.one_of(
+        st.builds(lambda o, v, dt: {'a': 'create', 'obj': o, 'v': v, 'dt': dt}, objs, st.integers(0, 3), dts),
+        st.builds(lambda o, v, dt: {'a': 'edit_spec', 'obj': o, 'v': v, 'dt': dt}, objs, st.integers(0, 3), dts),
+        st.builds(lambda o, p, v, dt: {'a': 'edit_field', 'obj': o, 'path': p, 'v': v, 'dt': dt}, objs,
+                  st.sampled_from([['spec', 'g'], ['spec', 'n'], ['spec', 'n', 'k'], ['spec', 'f'], ['other'], ['status', 's']]), vals, dts),
+        st.builds(lambda o, v, dt: {'a': 'label', 'obj': o, 'v': v, 'dt': dt}, objs, st.sampled_from(['yes', 'no', None]), dts),
+        st.builds(lambda o, v, dt: {'a': 'annotate', 'obj': o, 'v': v, 'dt': dt}, objs, st.integers(0, 3), dts),
+        st.builds(lambda o, dt: {'a': 'delete', 'obj': o, 'dt': dt}, objs, dts),
+        st.builds(lambda dt, how: {'a': 'restart', 'how': how, 'down': dt, 'dt': 0.0}, dts, st.sampled_from(['stop', 'kill'])),
+        st.builds(lambda dt: {'a': 'compact', 'dt': dt}, dts),
+    )
+    actions = [{'a': 'create', 'obj': 0, 'v': 1, 'dt': 1.0}] + draw(st.lists(act, min_size=2, max_size=12))
+    return {'mode': 'kw', 'seed': draw(st.integers(0, 9999)),
+            'spec': {'handlers': handlers, 'lifecycle': 'all_at_once', 'progress_storage': progress, 'diffbase_storage': diffbase,
+                     'settings': {'persistence.consistency_timeout': 1.0, 'watching.reconnect_backoff': 0.1}},
+            'cluster': {'status_sub': draw(st.booleans())}, 'actions': actions}
+
+
+def run_kw_case(sc):
+    from props import closedloop as cl
+    from kopfsim.world import Livelock
+    res = CaseResult()
+    run = cl.Run(sc)
+    try:
+        try:
+            run.run()
+            run.quiesce(60.0)
+        except Livelock as e:
+            res.fail('C04/P6-livelock', str(e))
+        spec = sc['spec']
+        prefixes = cl.storage_prefixes(spec.get('progress_storage'), spec.get('diffbase_storage'))
+        handlers = {h['id']: h for h in spec['handlers']}
+        narrowed_on_empty_diff = narrowed = 0
+        for c in run.sim.trace:
+            if c.get('k') != 'call' or c['hid'] not in handlers or c['kind'] not in ('create', 'update', 'delete', 'resume'):
+                continue
+            h = handlers[c['hid']]
+            view = c['view']
+            e_new = norm(cl.essence(view, prefixes))
+            stored = cl.read_last_handled(view, spec.get('diffbase_storage'))
+            e_old = norm(stored) if stored is not None else None
+            path = h['field'].split('.') if h.get('field') else []
+            want_old = norm(resolve(e_old, path)) if e_old is not None else None
+            want_new = norm(resolve(e_new, path))
+            if want_old == {} and path:
+                want_old = resolve(e_old, path)
+            got_old, got_new = norm(c.get('old')), norm(c.get('new'))
+            where = f'{c["hid"]} ({c["kind"]}, field={h.get("field")}, reason={c["reason"]}) on {c["name"]} rv={c["rv"]}'
+            if not _same(got_new, want_new):
+                res.fail('C04/P6-new', f'{where}: new={c.get("new")!r}, but the essence of the object it was given' + (f' at {h["field"]}' if path else '') + f' is {want_new!r}')
+            if not _same(got_old, want_old):
+                res.fail('C04/P6-old', f'{where}: old={c.get("old")!r}, but the last-handled state stored on the object it was given' + (f' at {h["field"]}' if path else '') + f' is {want_old!r}')
+            diff = c.get('diff') or []
+            if not _same(norm(apply_diff(c.get('old'), diff)), got_new):
+                res.fail('C04/P6-diff-unsound', f'{where}: applying diff {diff} to old={c.get("old")!r} gives {apply_diff(c.get("old"), diff)!r}, not new={c.get("new")!r}')
+            if (not diff) != (got_old == got_new):
+                res.fail('C04/P6-diff-empty', f'{where}: diff={diff} with old={c.get("old")!r} new={c.get("new")!r}')
+            if path:
+                narrowed += 1
+                if _same(e_old, e_new):
+                    narrowed_on_empty_diff += 1
+        res.label('kw-closed-loop')
+        if narrowed:
+            res.label('kw:field-handler-invoked')
+        if narrowed_on_empty_diff:
+            res.label('kw:field-handler-on-unchanged-object')
+        res.nontrivial = narrowed > 0
+        res.summary = cl.summarize(run, max_calls=15)
+    finally:
+        run.close()
+    return res
+
+
+def _same(a, b):
+    """Equality modulo null == absent and empty mapping == absent (what the property calls 'nothing essential differs')."""
+    def strip(v):
+        if isinstance(v, dict):
+            out = {k: strip(x) for k, x in v.items() if x is not None}
+            return {k: x for k, x in out.items() if x != {}}
+        return v
+    a, b = strip(a), strip(b)
+    if a == {}:
+        a = None
+    if b == {}:
+        b = None
+    return a == b
+
+
 def run_case(sc):
     if sc.get('mode') == 'cl':
         return run_cl_case(sc)
+    if sc.get('mode') == 'kw':
+        return run_kw_case(sc)
     from kopf._cogs.structs import diffs
     res = CaseResult()
     body = sc['body']
@@ -356,7 +474,9 @@ def run_case(sc):
     if other_cfg['prefix'] == sc['cfg']['prefix']:
         other_cfg = None
     other = make_storages(other_cfg) if other_cfg else own
-    fields = [f for f in sc['fields'] if f and f != 'status' and not f.startswith('metadata.annotations')]
+    # (a handler field may name all annotations: the framework's own ones stay invisible all the same; a handler that asks for the
+    # whole status stanza asks for the handlers' results in it too, which is why that one is not generated)
+    fields = [f for f in sc['fields'] if f and f != 'status']
     sc = dict(sc, fields=fields)
     try:
         base = essence_of(body, *own, fields)
@@ -387,6 +507,8 @@ def run_case(sc):
     se = sc['sysedit']
     if se == 'status':
         sysb['status'] = dict({k: v for k, v in (sysb.get('status') or {}).items() if k == 'foreign'}, x={'y': None}, zz=1)
+    elif se == 'kubectl' and any(f.startswith('metadata.annotations') for f in fields):
+        pass    # (a handler that names all annotations as its field gets kubectl's one too: it is nobody's own write nor system metadata)
     elif se == 'kubectl':
         sysb['metadata'].setdefault('annotations', {})['kubectl.kubernetes.io/last-applied-configuration'] = '{"spec":{"changed":true}}'
     elif se == 'status.deep':
